@@ -85,7 +85,38 @@ func NewDomConverter(flags ConverterFlag, builder webdoc.DocumentBuilder, pageUR
 
 func (dc *DomConverter) Convert(root *html.Node) {
 	clone := dom.Clone(root, true)
+	removeForeignRawTextElements(root, clone)
 	domutil.WalkNodes(clone, dc.visitNodeHandler, dc.exitNodeHandler)
+}
+
+// rawTextTagNames are the elements whose text is written without escaping when
+// a tree is serialised.
+var rawTextTagNames = map[string]struct{}{
+	"iframe": {}, "noembed": {}, "noframes": {}, "noscript": {},
+	"plaintext": {}, "script": {}, "style": {}, "xmp": {},
+}
+
+// removeForeignRawTextElements removes from the clone the elements of SVG or MathML
+// content that are named like a raw text element of HTML. There they are ordinary
+// elements with ordinary (escaped) text, but a clone doesn't know its namespace any
+// more and the serialiser decides by name only, so it would write their text raw
+// and "&lt;iframe&gt;" inside <math><xmp> would come back as a live element when the
+// distilled output is parsed again. The clone has the same shape as the original,
+// which is only read here.
+func removeForeignRawTextElements(original, clone *html.Node) {
+	originalChild, cloneChild := original.FirstChild, clone.FirstChild
+	for originalChild != nil && cloneChild != nil {
+		nextOriginal, nextClone := originalChild.NextSibling, cloneChild.NextSibling
+
+		_, isRawText := rawTextTagNames[originalChild.Data]
+		if originalChild.Type == html.ElementNode && originalChild.Namespace != "" && isRawText {
+			clone.RemoveChild(cloneChild)
+		} else {
+			removeForeignRawTextElements(originalChild, cloneChild)
+		}
+
+		originalChild, cloneChild = nextOriginal, nextClone
+	}
 }
 
 func (dc *DomConverter) visitNodeHandler(node *html.Node) bool {
